@@ -286,3 +286,43 @@ func PadIV(iv []byte) []byte {
 	}
 	return iv
 }
+
+// R2-SHARE: every object gets the package-level slice itself.
+var sharedUUID = []byte{1, 2, 3, 4}
+
+type uuidHolder struct {
+	uuid []byte
+}
+
+func NewSharedHolder() *uuidHolder {
+	return &uuidHolder{uuid: sharedUUID}
+}
+
+// O-REUSE: overwrites whatever storage the field happens to point at.
+func (u *uuidHolder) SetUUID(n []byte) {
+	u.uuid = append(u.uuid[:0], n...)
+}
+
+// UseUUIDHolder keeps the method reachable.
+func UseUUIDHolder(h *uuidHolder, b []byte) {
+	h.SetUUID(b)
+}
+
+// L-DIVMUL: the remainder of timescale/1000 is dropped before the multiplication.
+func ticksWrong(ms, timescale uint64) uint64 {
+	perMS := timescale / 1000
+	return ms * perMS
+}
+
+// G3X: only "not shorter" is checked in the wrong direction.
+func crossIndexWrong(a, b []uint32) bool {
+	if len(a) < len(b) {
+		return false
+	}
+	for j := 0; j < len(a); j++ {
+		if a[j] != b[j] {
+			return false
+		}
+	}
+	return true
+}
